@@ -191,7 +191,12 @@ def impl(line):
         warnings.simplefilter("ignore")
         if t[0] == "const":
             from space_packet_parser.xtce import comparisons as cm
-            return "ok " + " ".join(f"{S(k)}:{v}" for k, v in cm.MatchCriteria._valid_operators.items())
+            # the operator table itself, where the class has it under this name and in this form (spelling -> dunder
+            # name); every spelling is exercised through evaluation below in any case
+            tbl = getattr(cm.MatchCriteria, "_valid_operators", None)
+            if not isinstance(tbl, dict) or not all(isinstance(v, str) for v in tbl.values()):
+                return "n/a"
+            return "ok " + " ".join(f"{S(k)}:{v}" for k, v in tbl.items())
         if t[0] == "crit":
             c = xbuild.criterion(t[1])
             pkt = xbuild.packet(t[2])
